@@ -546,10 +546,50 @@ theorem differs_eq (hc : KV.Gen.Routing.updateCompare = .whole) (b1 : Broker) (o
     simp only [differs, hc, brokersDiffer]
     by_cases h : b1 = b2 <;> simp [h, bne]
 
-theorem update_connsInv (hc : KV.Gen.Routing.updateCompare = .whole) (s : PoolState) (m : Option MResponse) (err : Bool)
+/-- the add set of the regenerated classification is the explicit one: new ids that were unknown or changed -/
+theorem addSet_eq (old new : List (Int × Broker)) :
+    addSet old new = (keys new).filter (fun id =>
+      match old.lookup id with
+      | none => true
+      | some b1 => differs b1 (new.lookup id)) := by
+  unfold addSet
+  have h2 : (keys old).filter (fun id => (oldClass new id).1) = [] := by
+    apply List.filter_eq_nil_iff.mpr
+    intro id _
+    simp only [oldClass, KV.Gen.Routing.updateOldEntry]
+    split <;> simp
+  rw [h2, List.append_nil]
+  apply List.filter_congr
+  intro id _
+  simp only [newClass, KV.Gen.Routing.updateNewEntry]
+  cases old.lookup id with
+  | none => simp
+  | some b1 => by_cases hd : differs b1 (new.lookup id) = true <;> simp [hd]
+
+/-- … and the delete set: changed ids of the new layout plus old ids that vanished -/
+theorem delSet_eq (old new : List (Int × Broker)) :
+    delSet old new = (keys new).filter (fun id =>
+        match old.lookup id with
+        | none => false
+        | some b1 => differs b1 (new.lookup id)) ++
+      (keys old).filter (fun id => (new.lookup id).isNone) := by
+  unfold delSet
+  congr 1
+  · apply List.filter_congr
+    intro id _
+    simp only [newClass, KV.Gen.Routing.updateNewEntry]
+    cases old.lookup id with
+    | none => simp
+    | some b1 => by_cases hd : differs b1 (new.lookup id) = true <;> simp [hd]
+  · apply List.filter_congr
+    intro id _
+    simp only [oldClass, KV.Gen.Routing.updateOldEntry]
+    cases new.lookup id <;> simp
+
+theorem update_connsInv (hc : KV.Gen.Routing.updateCompare = .whole)
+    (ho : KV.Gen.Routing.updateApplyOrder = [.del, .add]) (s : PoolState) (m : Option MResponse) (err : Bool)
     (h : ConnsInv s) : ConnsInv (update s m err) := by
   unfold update
-  simp only [differs_eq hc]
   cases err with
   | true =>
     simp only [↓reduceIte]
@@ -557,7 +597,7 @@ theorem update_connsInv (hc : KV.Gen.Routing.updateCompare = .whole) (s : PoolSt
     · exact h
     · exact h
   | false =>
-    simp only [Bool.false_eq_true, ↓reduceIte]
+    simp only [Bool.false_eq_true, ↓reduceIte, applySets, ho, beq_self_eq_true, addSet_eq, delSet_eq, differs_eq hc]
     intro id
     exact conns_update s.layout.brokers _ s.conns h id
 
